@@ -372,7 +372,7 @@ func runC06R3(c *eng.Ctx, r *eng.RuleCtx) {
 		// origins are flow-insensitive over variables named alike; use the defining statement in the same block instead
 		_ = or
 		if v, isV := eng.SelObj(info, arg).(*types.Var); isV {
-			for _, e := range eng.AssignedExprs(info, enclosingBlockOf(f.Decl.Body, n.Node.Pos()), v) {
+			for _, e := range eng.AssignedExprs(info, f.Decl.Body, v) {
 				if eng.UsesObj(info, e, enKube, false) {
 					kubeNode = n
 				}
